@@ -221,6 +221,8 @@ class World(object):
         p = self.prog[t]
         if p == ['shell']:
             return lambda: d.shell(t, decode=False)
+        if p == ['close']:
+            return lambda: d.close()
         if p == []:
             return lambda: d.reboot()
         if p == ['flush', 'readw', 'clse']:
@@ -426,6 +428,8 @@ API_OF = {'shell': 'shell', 'stat': 'stat', 'list': 'list', 'push': 'push', 'reb
 def api_name(p):
     if p == ['shell']:
         return 'shell'
+    if p == ['close']:
+        return 'close'
     if p == []:
         return 'reboot'
     if p == LIST2:
